@@ -10,7 +10,7 @@ use std::rc::Rc;
 
 use serde_json::json;
 
-use crate::app::{App, ControlPlan, ControlAnswer, Ev, GateKind, Outcome, ProtoAnswer, ProtoPlan, PubPlan, ReadMode, SinkRes, StopClass};
+use crate::app::{App, ControlPlan, ControlAnswer, Ev, GateKind, InnerOp, Outcome, ProtoAnswer, ProtoPlan, PubPlan, ReadMode, ReadyMode, SVC_PROTO, SVC_PUB, SinkRes, StopClass};
 use crate::conn::{self, ConnCfg, Role};
 use crate::explore::{Run, exec};
 use crate::pool::{self, After};
@@ -32,6 +32,13 @@ pub enum Base {
     B5,
     /// an inbound handler in flight while the application's own writes run into back-pressure
     B6,
+    /// a handler that uses the sink itself and awaits the result (an outbound QoS 1 publish the
+    /// peer never acknowledges) with further requests queued behind it
+    B7,
+    /// B3 with the parked senders in a chosen order (`step` selects which kind waits first); at
+    /// the end the peer acknowledges the oldest publish and the cause follows after `variant`
+    /// scheduler rounds, i.e. while the woken waiter may not have run yet
+    B3W,
 }
 
 #[derive(Debug, Clone, Copy, PartialEq, Eq)]
@@ -51,9 +58,15 @@ pub enum Cause {
     CloseWithReason,
     ForceClose,
     PeerDisconnect,
+    /// `Service::ready` of the publish service fails
+    PubReadyError,
+    /// `Service::ready` of the protocol-message service fails
+    ProtoReadyError,
 }
 
-pub const CAUSES: [Cause; 13] = [
+pub const CAUSES: [Cause; 15] = [
+    Cause::PubReadyError,
+    Cause::ProtoReadyError,
     Cause::PublishHandlerErrorLast,
     Cause::ProtoDisconnect,
     Cause::PeerClose,
@@ -73,7 +86,7 @@ fn expected_class(cause: Cause, role: Role) -> Option<StopClass> {
     Some(match cause {
         Cause::PeerClose | Cause::ReadError | Cause::WriteError | Cause::LocalClose | Cause::CloseWithReason | Cause::ForceClose | Cause::ProtoDisconnect => StopClass::PeerGone,
         Cause::Garbage | Cause::ProtocolViolation => StopClass::Protocol,
-        Cause::PublishHandlerError | Cause::PublishHandlerErrorLast | Cause::ProtoHandlerError => StopClass::Error,
+        Cause::PublishHandlerError | Cause::PublishHandlerErrorLast | Cause::ProtoHandlerError | Cause::PubReadyError | Cause::ProtoReadyError => StopClass::Error,
         Cause::PeerDisconnect => {
             // a v3 client does not expect DISCONNECT from a server: protocol violation
             if role == Role::V3Client { StopClass::Protocol } else { StopClass::PeerGone }
@@ -123,14 +136,25 @@ fn inbound_steps(base: Base, role: Role) -> Vec<Vec<u8>> {
             let cut = full.len() - 25;
             vec![full[..cut].to_vec(), full[cut..cut + 10].to_vec(), full[cut + 10..].to_vec()]
         }
-        Base::B3 | Base::B3C => vec![],
+        Base::B3 | Base::B3C | Base::B3W => vec![],
+        Base::B7 => {
+            if role.is_server() {
+                vec![
+                    enc(&publ(1, 71, 6)),
+                    enc(&R::Subscribe { pid: 72, props: vec![], filters: vec![("i/a".into(), 0)] }),
+                    enc(&R::Subscribe { pid: 73, props: vec![], filters: vec![("i/b".into(), 0)] }),
+                ]
+            } else {
+                vec![enc(&publ(1, 71, 6)), enc(&publ(1, 72, 6)), enc(&publ(0, 0, 2))]
+            }
+        }
         Base::B4 => vec![enc(&publ(1, 41, 5)), enc(&publ(1, 42, 5)), enc(&publ(1, 43, 5)), enc(&publ(1, 44, 5))],
     }
 }
 
 pub fn steps_of(base: Base, role: Role) -> usize {
     match base {
-        Base::B3 | Base::B3C => 6,
+        Base::B3 | Base::B3C | Base::B3W => 6,
         Base::B6 => 2,
         _ => inbound_steps(base, role).len(),
     }
@@ -167,6 +191,14 @@ pub async fn run_case(case: &Case) -> Outc {
     if case.base == Base::B5 {
         *app.stop_plan.borrow_mut() = Some(ControlPlan { gated: true, answer: ControlAnswer::None });
     }
+    if case.base == Base::B7 {
+        if role.is_server() {
+            // the first SUBSCRIBE handler publishes through the sink and awaits the acknowledgement
+            app.proto_inner.borrow_mut().push_back(Some(InnerOp::SendQ1));
+        } else {
+            app.pub_inner.borrow_mut().push_back(Some(InnerOp::SendQ1));
+        }
+    }
     let mut c = conn::start(&cfg, app.clone()).await;
     let mut o = Outc { violations: vec![], log: vec![], sig: 0, steps_total: 0, inbound_len: 0, injected: false, stop: None, pending_ops: 0, handlers_cancelled: 0, parked_at_cause: 0, wr_backpressure: false, reader_waiting: false, reader_errors: 0 };
     if !c.has_sink() {
@@ -185,7 +217,7 @@ pub async fn run_case(case: &Case) -> Outc {
     let mut written = 0usize;
     let stop_at_bytes = case.byte_offset;
     'script: for step in 0..total_steps {
-        if step >= case.step && stop_at_bytes.is_none() {
+        if step >= case.step && stop_at_bytes.is_none() && case.base != Base::B3W {
             break;
         }
         match case.base {
@@ -209,6 +241,35 @@ pub async fn run_case(case: &Case) -> Outc {
                 if sink.send_qos1_noblock(&PubSpec::new("o/nb", vec![2; 4])).is_some() {
                     noblock += 1;
                 }
+            }
+            Base::B3W => {
+                // two QoS 1 sends fill the window; the four parked waiters follow in the order
+                // selected by `case.step` (which kind is woken first by the acknowledgement)
+                let order: [u8; 4] = match case.step % 4 {
+                    0 => [b'r', b'2', b'1', b's'],
+                    1 => [b'2', b'r', b's', b'1'],
+                    2 => [b's', b'2', b'r', b'1'],
+                    _ => [b'1', b'r', b'2', b's'],
+                };
+                let id = next_op_id();
+                let kind = if step < 2 { b'1' } else { order[step - 2] };
+                let fut = match kind {
+                    b'1' => sink.send_qos1(&PubSpec::new("o/t", vec![step as u8; 6])),
+                    b'r' => sink.ready(),
+                    b's' if !role.is_server() => sink.subscribe(None, &[("o/s", 0)]),
+                    b's' => sink.send_qos1(&PubSpec::new("o/t2", vec![step as u8; 3])),
+                    _ => {
+                        let ch = crate::sink::Chan::new();
+                        ch.push(crate::sink::ReceiptCmd::Release);
+                        let app3 = app.clone();
+                        sink.send_qos2(&PubSpec::new("o/q2", vec![9; 4]), ch, Rc::new(move |ph, r| {
+                            app3.log(Ev::Note(format!("q2 op {id} phase {ph}: {r:?}")));
+                        }))
+                    }
+                };
+                let mut op = Op::new(&app, id, &format!("b3w-{step}-{}", kind as char), fut);
+                op.start();
+                ops.push(op);
             }
             Base::B3 | Base::B3C => {
                 // 6 steps: four QoS 1 senders (2 fit the window), a ready() waiter, a QoS 2 sender
@@ -258,8 +319,20 @@ pub async fn run_case(case: &Case) -> Outc {
     o.parked_at_cause = ops.iter().filter(|op| !op.is_done()).count();
     o.reader_waiting = matches!(case.base, Base::B2 | Base::B2D) && handlers_running_before > 0 && app.count(|e| matches!(e, Ev::PubPayload { .. })) == 0;
 
+    // ---- B3W: the peer acknowledges the oldest publish; the cause follows while the waiter that the
+    // acknowledgement wakes may not have been polled yet
+    if case.base == Base::B3W {
+        let first = app.wire().iter().find_map(|(_, p)| if let R::Publish { pid: Some(id), .. } = p { Some(*id) } else { None });
+        if let Some(id) = first {
+            c.peer.send(&R::PubAck { pid: id, code: if v5 { Some(0) } else { None }, props: None });
+            crate::rt::rounds(case.variant as usize).await;
+        }
+    }
     // ---- the cause
     o.injected = true;
+    // handlers started by the cause itself do not use the sink
+    app.pub_inner.borrow_mut().clear();
+    app.proto_inner.borrow_mut().clear();
     app.log(Ev::Note(format!("CAUSE {:?}", case.cause)));
     match case.cause {
         Cause::PeerClose => c.peer.close(),
@@ -320,6 +393,15 @@ pub async fn run_case(case: &Case) -> Outc {
                 c.peer.send(&R::Publish { dup: false, qos: 0, retain: false, topic: "f".into(), pid: None, props: vec![], payload: vec![1] });
             }
         }
+        Cause::PubReadyError | Cause::ProtoReadyError => {
+            app.set_ready(if case.cause == Cause::PubReadyError { SVC_PUB } else { SVC_PROTO }, ReadyMode::Fail);
+            // readiness is asked again when the connection task runs: any inbound bytes do
+            if role.is_server() {
+                c.peer.send(&R::PingReq);
+            } else {
+                c.peer.send(&R::PingResp);
+            }
+        }
         Cause::LocalClose => sink.close(),
         Cause::CloseWithReason => sink.close_with_reason(0x8B),
         Cause::ForceClose => sink.force_close(),
@@ -328,13 +410,13 @@ pub async fn run_case(case: &Case) -> Outc {
             c.peer.send(&R::Disconnect { code: if v5 { Some(0) } else { None }, props: None });
         }
     }
-    if case.variant == 1 {
+    if case.variant == 1 && case.base != Base::B3W {
         for g in app.pending_gates().into_iter().filter(|g| g.0 == GateKind::Pub) {
             app.open_gate(g, Outcome::Ok);
         }
     }
     c.settle().await;
-    if case.variant == 2 {
+    if case.variant == 2 && case.base != Base::B3W {
         for g in app.pending_gates().into_iter().filter(|g| g.0 == GateKind::Pub) {
             app.open_gate(g, Outcome::Ok);
         }
@@ -376,7 +458,16 @@ pub async fn run_case(case: &Case) -> Outc {
         o.violations.push((format!("control service received {} Stop notifications", stops.len()), what.clone()));
     } else if let Some(want) = expected_class(case.cause, role) {
         // byte-offset mode cuts a frame: a decode error may legitimately win over the close
-        if stops[0].1 != want {
+        // B7: protocol messages are handled one at a time; while the handler that awaits its own
+        // send occupies the protocol service, a cause that needs that service cannot take effect
+        // before the peer goes away
+        let proto_busy = case.base == Base::B7
+            && matches!(case.cause, Cause::ProtoHandlerError | Cause::ProtoReadyError | Cause::ProtoDisconnect | Cause::PeerDisconnect)
+            && {
+                let cause_seq = log.iter().find_map(|(s, e)| matches!(e, Ev::Note(n) if n.starts_with("CAUSE")).then_some(*s)).unwrap_or(0);
+                log.iter().any(|(s, e)| *s < cause_seq && matches!(e, Ev::ProtoEnter { call, .. } if !log.iter().any(|(s2, e2)| *s2 < cause_seq && matches!(e2, Ev::ProtoExit { call: c2, .. } | Ev::ProtoDropped { call: c2 } if c2 == call))))
+            };
+        if stops[0].1 != want && !(proto_busy && stops[0].1 == StopClass::PeerGone) {
             o.violations.push((
                 format!("Stop reason is {:?}, expected {:?} for cause {:?}", stops[0].1, want, case.cause),
                 format!("{what}; detail {}", stops[0].2),
@@ -394,6 +485,9 @@ pub async fn run_case(case: &Case) -> Outc {
                 o.violations.push(("a send / readiness future is still pending after the connection ended".into(), format!("{} — {what}", op.what)));
             }
             Some(SinkRes::ErrDisconnected) | Some(SinkRes::Ready(false)) => {}
+            // B3W: the acknowledged send may complete at any time; with a cause the endpoint only
+            // learns about later, a waiter polled in between may legitimately report success
+            Some(r) if r.is_ok() && case.base == Base::B3W && (op.id == ops[0].id || !matches!(case.cause, Cause::LocalClose | Cause::CloseWithReason | Cause::ForceClose)) => {}
             Some(r) if r.is_ok() => {
                 // may have completed before the cause; acceptable only if it was logged before the cause
                 let cause_seq = log.iter().find_map(|(s, e)| matches!(e, Ev::Note(n) if n.starts_with("CAUSE")).then_some(*s)).unwrap_or(0);
@@ -459,6 +553,13 @@ pub async fn run_case(case: &Case) -> Outc {
             o.violations.push(("a publish handler is left waiting for ever (neither completed nor cancelled)".into(), format!("call {call} — {what}")));
         }
     }
+    let pentered: Vec<u32> = log.iter().filter_map(|(_, e)| if let Ev::ProtoEnter { call, .. } = e { Some(*call) } else { None }).collect();
+    for call in pentered {
+        let finished = log.iter().any(|(_, e)| matches!(e, Ev::ProtoExit { call: c2, .. } | Ev::ProtoDropped { call: c2 } if *c2 == call));
+        if !finished {
+            o.violations.push(("a protocol-message handler is left waiting for ever (neither completed nor cancelled)".into(), format!("call {call} — {what}")));
+        }
+    }
     o.sig = app.trace_signature();
     o.log = app.render(60);
     c.finish().await;
@@ -468,10 +569,23 @@ pub async fn run_case(case: &Case) -> Outc {
 pub fn cases(quick: bool) -> Vec<Case> {
     let mut v = Vec::new();
     for role in Role::ALL {
-        for base in [Base::B1, Base::B2, Base::B2D, Base::B3, Base::B3C, Base::B4, Base::B5, Base::B6] {
+        for base in [Base::B1, Base::B2, Base::B2D, Base::B3, Base::B3C, Base::B4, Base::B5, Base::B6, Base::B7, Base::B3W] {
             let n = steps_of(base, role);
             for cause in CAUSES {
                 if cause == Cause::CloseWithReason && !role.is_v5() {
+                    continue;
+                }
+                // clients have a publish service of their own only when they route through `resource`
+                if cause == Cause::PubReadyError && !role.is_server() && base != Base::B2D {
+                    continue;
+                }
+                if base == Base::B3W {
+                    // step = order of the parked waiters, variant = scheduler rounds between ack and cause
+                    for order in 0..4 {
+                        for rounds in 0..5u8 {
+                            v.push(Case { role, base, cause, step: order, byte_offset: None, variant: rounds });
+                        }
+                    }
                     continue;
                 }
                 for step in 0..=n {
